@@ -1,4 +1,5 @@
 import UtpVerif.Model.SeqNr
+import UtpVerif.Gen.Fns
 /-!
 # C09 — behaviour invariant under initial sequence numbers (16-bit wrap safety)
 
@@ -111,5 +112,15 @@ numbers do not wrap and "-64036" when they do, under tolerance 1024. Kept as a r
 about the *function*; `default_windows_within_tolerance` is what rules it out for the crate. -/
 theorem isn_dependent_beyond_tolerance :
     seqOffset 1501 1 1024 = 1500 ∧ seqOffset 964 65000 1024 = -64036 := by decide
+
+/-! ### Tie 1b: the hand-written model of this function equals the definition regenerated from the Rust source
+
+`UtpVerif.Gen.Fns` is rewritten by `tools/translate_fns.py` from /repo's current source on every run; the theorems
+of this file are about the model definition, and the equality below re-attaches them to what the code says now. -/
+
+theorem generated_seq_nr_offset (new old tol : Nat) :
+    UtpVerif.Gen.Fns.seqNrOffset new old tol = seqOffset new old tol := by
+  unfold UtpVerif.Gen.Fns.seqNrOffset seqOffset wsub
+  rfl
 
 end UtpVerif.Props.C09
